@@ -8,6 +8,7 @@ from .. import runner, fsrun, gitmatch, fscase
 
 class Prop(BaseProp):
     ID = "C15"
+    ANCHORS = ['cminx:document', 'cminx:main']
     LEVEL = "exploration"
     RULE = ("trees x pattern sets (0-6 patterns: bare names, globs, trailing slash, leading **/, **/x/**, absolute "
             "file/dir paths, all CMake files of one directory, whole-input exclusion) supplied through -e, -s file and "
